@@ -164,6 +164,29 @@ pub fn run(rep: &mut Report, tier: &str, seed: u64) {
         } else {
             text
         };
+        // a third of the texts get a `;` comment with multi-byte characters (more bytes than characters) on a line of its own, in
+        // front of a statement inside a block: comments are skipped whole, whatever they contain
+        let text = if ci % 3 == 1 {
+            let lines: Vec<&str> = text.split_inclusive('\n').collect();
+            let candidates: Vec<usize> = lines.iter().enumerate().filter(|(_, l)| l.starts_with("  ")).map(|(i, _)| i).collect();
+            if candidates.is_empty() {
+                text
+            } else {
+                rep.count("multi-byte-comment-inserted");
+                let at = *r.pick(&candidates);
+                let comment = *r.pick(&["  ;; \u{65e5}\u{672c}\u{8a9e}\u{306e}\u{30b3}\u{30e1}\u{30f3}\u{30c8} caf\u{e9}\n", ";\u{1f600}\u{1f600}\u{1f600}\u{1f600}\u{1f600}\u{1f600}\n", "      ; \u{e9}\u{e9}\u{e9}\u{e9}\u{e9}\u{e9}\u{e9}\u{e9}\u{e9}\u{e9}\u{e9}\u{e9} ;\n"]);
+                let mut out = String::new();
+                for (i, l) in lines.iter().enumerate() {
+                    if i == at {
+                        out.push_str(comment);
+                    }
+                    out.push_str(l);
+                }
+                out
+            }
+        } else {
+            text
+        };
         let real = match real_load(&text) {
             Ok(x) => x,
             Err(()) => {
